@@ -97,6 +97,16 @@ pub fn seeds(ver: Ver, w: usize) -> Vec<(String, AP)> {
         v.push((format!("SUBSCRIBE special filter #{i}"), AP::Subscribe { ver, pid: 1, props: vec![], entries: vec![(f.as_bytes().to_vec(), 0)] }));
         v.push((format!("UNSUBSCRIBE special filter #{i}"), AP::Unsubscribe { ver, pid: 1, props: vec![], filters: vec![f.as_bytes().to_vec()] }));
     }
+    // several entries, one of them special: a per-entry rule must hold for every entry, wherever it stands
+    for (i, f) in crate::genpk::special_filters().into_iter().enumerate() {
+        for (o, first) in [(0, true), (1, false)] {
+            let plain = (b"f".to_vec(), 0u8);
+            let special = (f.as_bytes().to_vec(), 0u8);
+            let entries = if first { vec![special.clone(), plain.clone()] } else { vec![plain.clone(), special.clone()] };
+            v.push((format!("SUBSCRIBE two entries, special filter #{i} at {o}"), AP::Subscribe { ver, pid: 1, props: vec![], entries: entries.clone() }));
+            v.push((format!("UNSUBSCRIBE two entries, special filter #{i} at {o}"), AP::Unsubscribe { ver, pid: 1, props: vec![], filters: entries.into_iter().map(|e| e.0).collect() }));
+        }
+    }
     for (i, n) in crate::genpk::special_names().into_iter().enumerate() {
         v.push((format!("PUBLISH special topic #{i}"), AP::Publish { ver, dup: false, qos: 0, retain: false, topic: n.as_bytes().to_vec(), pid: None, props: vec![], payload: vec![] }));
     }
